@@ -65,8 +65,8 @@ Print Assumptions C02_abort_leaves_no_trace_interleaved.
 Example C02_nonvacuous_interleaved :
   let acts := [(1%N, KWriter [0; 1] [0; 1] true [] []); (2%N, KWriter [0] [0] false [] [])] in
   wf_system 2 acts /\
-  map tv_ids (s_root (reach 2 acts (repeat 0 9))) = [[]; []] /\
-  map tv_ids (s_root (reach 2 acts (repeat 0 10))) = [[1%N]; [1%N]].
+  map tv_ids (s_root (reach 2 acts (repeat 0 10))) = [[]; []] /\
+  map tv_ids (s_root (reach 2 acts (repeat 0 11))) = [[1%N]; [1%N]].
 Proof.
   split; [split|].
   - intros ik [<-|[<-|[]]]; cbn; repeat split; try (intros x Hx; cbn in Hx; intuition (subst; cbn; auto)).
